@@ -261,6 +261,8 @@ func init() {
 		Streams: []core.Stream{{Name: "buildorder", Gen: streamBuildorder,
 			Domain: "random build-dependency graphs over 1-12 sources with 1-4 binaries each, acyclic (3/4) and possibly cyclic (1/4), relations of 1-3 alternatives with architecture restrictions ([arch], [!arch], [other]), version clauses, substvars and packages no source provides, spread over Build-Depends / -Arch / -Indep, rendered as multi-binary .dsc text (single-line and folded Binary and dependency fields) in shuffled order and parsed by the real ParseDsc; model vs OrderDSCForBuild (three runs each); law-order: graph-level oracle (permutation, every needed source earlier, cycle <=> error)"}},
 		Impl: buildOrderImpl, TrustedBase: tb,
-		Readable: func(op string, a []string) string { return op + " arch=" + core.MustUnHex(a[0]) + " " + clipStr(strings.Join(a[1:], " "), 160) },
+		Readable: func(op string, a []string) string {
+			return op + " arch=" + core.MustUnHex(a[0]) + " " + clipStr(strings.Join(a[1:], " "), 160)
+		},
 	})
 }
